@@ -41,7 +41,15 @@ RULE = (
     "the output must agree with one of these candidate expectations; every other source contributes exactly its intact prefix.  "
     "Dedicated cases run one argv with --multi-timestamp and a -F/-X that removes a timestamp field through -w stream and the "
     "stdout modes csv / line / line-verbose / json / jsonlines and demand the model's records (projection before expansion) in "
-    "every mode.  Neutral-name and concatenated sources are also placed at every position among 1-3 (1-4) good sources and "
+    "every mode.  Other input forms (family fmt): 1-3 sources written as JSON with descriptors, plain JSON lines (descriptors=false and "
+    "hand-made), CSV, SQLite, Avro, .gz copies of the JSON forms and ordinary streams, mixed in one invocation, with selectors (both "
+    "engines), --skip/-c, -F/-X and overrides; reference = filter + slice over the records the selector-less reader returns for each "
+    "source; outputs -w stream / jsonfile and subprocess json / jsonlines / stream / -l.  Heterogeneous streams (family H): one field NAME "
+    "typed varint / string / float in different record types, and/or/not selectors over it, each argv run with the compiled and the "
+    "interpreted engine; reference = Python's own short-circuit evaluation, a record on which the expression raises ends its source.  "
+    "Environment children: rdump subprocesses with FLOW_RECORD_IGNORE (reserved / data fields), FLOW_RECORD_TZ, PYTHONHASHSEED, "
+    "PYTHONOPTIMIZE, PYTHONIOENCODING, LC_ALL=C: every output mode must be what the reference pipeline says (FLOW_RECORD_TZ: "
+    "record-level outputs only, it changes the rendered text of timestamps).  Neutral-name and concatenated sources are also placed at every position among 1-3 (1-4) good sources and "
     "next to bad ones: they contribute all records of all parts in order and nothing else (a mid-stream header frame is not a record).  Seeded part: random placements x options --skip 0..N+1, "
     "-c 1..N+1, -s (generated must-support expressions for A, equality/helper templates for B) with and without -n, -F, -X "
     "(unknown, reserved and repeated names included), --record-source, --record-classification, --multi-timestamp, --split "
@@ -69,6 +77,10 @@ ASSUMPTIONS = [
     "jsonfile output is compared only for family B (JSON-representable types; every NaN equal); plain JSON modes are compared on keys and scalar values",
     "the text form of a value is Python's str()/repr() of the value (value rendering is C20's subject); layout is modelled independently",
     "subprocess (stdout) modes use family A with ASCII override strings only (console encoding is not the subject)",
+    "family fmt: the reference takes each source's records from the selector-less reader of that format (what a format can carry is the adapters' subject); "
+    "_generated is not compared there (csv / hand-made JSON sources do not carry it and every read stamps its own); --multi-timestamp is not generated for it",
+    "family H: every record has every field the selector names and no None values, so Python's evaluation of the expression is defined or raises; "
+    "a selector raising on a record ends that source in both engines (observed behaviour of the reader loop, modelled as such)",
 ]
 SHARDS = {"quick": 8, "thorough": 16}
 BUDGET_S = {"quick": 200, "thorough": 1200}
@@ -187,9 +199,17 @@ def generate(ctx):
         idx += 1
     for i in range(ctx.scale(3, 20)):
         yield {"k": "mtx", "fam": "C", "s": subseed("c16", ctx.seed, "mtx", ctx.shard, i)}
-    for i in range(ctx.scale(160, 1200)):
+    for i in range(ctx.scale(6, 40)):
+        yield {"k": "fmt", "fam": "C", "s": subseed("c16", ctx.seed, "fmt", ctx.shard, i)}
+    for i in range(ctx.scale(12, 80)):
+        yield {"k": "hetero", "fam": "H", "s": subseed("c16", ctx.seed, "hetero", ctx.shard, i)}
+    for j in range(len(ENVX_CONFIGS)):
+        if ctx.mine(idx):
+            yield {"k": "envx", "fam": "C", "config": j, "s": subseed("c16", ctx.seed, "envx", j)}
+        idx += 1
+    for i in range(ctx.scale(150, 1200)):
         yield {"k": "rand", "fam": "AB"[i % 2], "s": subseed("c16", ctx.seed, "rand", ctx.shard, i)}
-    for i in range(ctx.scale(27, 150)):
+    for i in range(ctx.scale(26, 150)):
         mode = SUB_MODE_CYCLE[i % len(SUB_MODE_CYCLE)]
         fam = "A" if mode in ("csv", "line", "line-verbose", "text") else ("B" if mode in ("json", "jsonlines", "list") else "AB"[(i // len(SUB_MODES)) % 2])
         yield {"k": "sub", "fam": fam, "mode": mode, "s": subseed("c16", ctx.seed, "sub", ctx.shard, i)}
@@ -592,13 +612,16 @@ def run_inprocess(argv):
     return rc, bo.getvalue().decode("utf-8", "surrogateescape"), be.getvalue().decode("utf-8", "replace"), exc
 
 
-def run_subprocess(argv, stdin_data=None):
+def run_subprocess(argv, stdin_data=None, extra_env=None):
     env = dict(os.environ)
     if os.path.realpath(REPO) != "/repo":
         pp = env.get("PYTHONPATH", "")
         env["PYTHONPATH"] = REPO + (os.pathsep + pp if pp else "")
     env["PYTHONIOENCODING"] = "utf-8:surrogateescape"
     env.pop("FLOW_RECORD_TZ", None)
+    env.pop("FLOW_RECORD_IGNORE", None)
+    if extra_env:
+        env.update(extra_env)
     p = subprocess.run([RDUMP] + argv, input=stdin_data if stdin_data is not None else b"", stdout=subprocess.PIPE, stderr=subprocess.PIPE,
                        env=env, timeout=120)
     return p.returncode, p.stdout.decode("utf-8", "surrogateescape"), p.stderr.decode("utf-8", "replace")
@@ -654,6 +677,9 @@ def compare_records(ctx, got, expected, what, detail, json_mode=False):
     except observe.Untyped as e:
         ctx.violation(None, "%s: record in rdump's output holds an untyped slot" % what, detail=dict(detail, error=str(e)))
     obs = [observe.normalise(m15.dedup_fields(observe.obs(r))) for r in got]
+    if detail.get("drop_generated"):
+        # sources that do not carry _generated (csv, hand-made JSON lines ...): every reader stamps its own 'now'
+        exp, obs = [observe.obs_nometa(x) for x in exp], [observe.obs_nometa(x) for x in obs]
     if json_mode:
         exp, obs = [nan_canon(x) for x in exp], [nan_canon(x) for x in obs]
     if obs == exp:
@@ -900,7 +926,299 @@ def mtx_options(rng, descs, total):
     return opts, argv
 
 
+# ---- other input forms: JSON (with / without descriptors, hand-made), CSV, SQLite, Avro, .gz copies ------------------------
+FMT_KINDS = ("json", "jsonl-plain", "jsonl-hand", "csv", "sqlite", "avro", "json.gz", "jsonl-plain.gz", "stream", "stream.gz")
+
+
+def write_fmt_source(rng, kind, index, records, d):
+    """Write `records` in the given input form with the real writers (hand-made JSON lines excepted).  -> the SOURCE argument"""
+    from flow.record import RecordWriter
+
+    def dump(uri, recs):
+        w = RecordWriter(uri)
+        for r in recs:
+            w.write(r)
+        w.flush()
+        w.close()
+
+    base = os.path.join(d, "f%d" % index)
+    if kind == "json":
+        dump(base + ".json", records)
+        return base + ".json"
+    def gz_copy(path):
+        with open(path, "rb") as f:
+            raw = f.read()
+        with open(path + ".gz", "wb") as f:
+            f.write(gzip.compress(raw))
+        os.unlink(path)
+        return "jsonfile://" + path + ".gz"
+
+    if kind == "json.gz":
+        dump(base + ".json", records)
+        return gz_copy(base + ".json")
+    if kind in ("jsonl-plain", "jsonl-plain.gz"):
+        dump("jsonfile://" + base + ".jsonl?descriptors=false", records)
+        return gz_copy(base + ".jsonl") if kind.endswith(".gz") else base + ".jsonl"
+    if kind == "jsonl-hand":
+        with open(base + ".jsonl", "w") as f:
+            for r in records:
+                doc = {}
+                for t, n in r._desc.get_field_tuples():
+                    v = getattr(r, n)
+                    doc[n] = None if v is None else (bool(v) if t == "boolean" else int(v) if t == "varint" else str(v))
+                if rng.random() < 0.5:
+                    doc["_source"] = "hand"
+                f.write(json.dumps(doc) + "\n")
+        return base + ".jsonl"
+    if kind == "csv":
+        first = records[0]._desc if records else None
+        dump(base + ".csv", [r for r in records if r._desc is first])
+        return base + ".csv"
+    if kind == "sqlite":
+        dump("sqlite://" + base + ".db", records)
+        return "sqlite://" + base + ".db"
+    if kind == "avro":
+        first = records[0]._desc if records else None
+        dump(base + ".avro", [r for r in records if r._desc is first])
+        return base + ".avro"
+    if kind == "stream.gz":
+        dump(base + ".records.gz", records)
+        return base + ".records.gz"
+    dump(base + ".records", records)
+    return base + ".records"
+
+
+def read_without_selector(uri):
+    """The records a source holds, as the selector-less reader returns them (until it raises, as rdump's source loop does)."""
+    from flow.record import RecordReader
+
+    out = []
+    try:
+        rd = RecordReader(uri)
+        for r in rd:
+            out.append(r)
+        rd.close()
+    except Exception:  # noqa: BLE001 - the source ends here for rdump as well
+        pass
+    return out
+
+
+def _execute_fmt(ctx, case, d):
+    rng = random.Random(case["s"])
+    draw, _ = tame_family(rng)
+    sources = []
+    for i in range(rng.choice([1, 2, 2, 3])):
+        kind = rng.choice(FMT_KINDS)
+        recs = draw(rng.choice([1, 2, 3, 4, 6]))
+        try:
+            uri = write_fmt_source(rng, kind, i, recs, d)
+        except Exception as e:  # noqa: BLE001 - the writer refuses these records: not a source rdump could be given
+            ctx.event("skipped:fmt_source_not_writable:%s:%s" % (kind, type(e).__name__))
+            return
+        back = read_without_selector(uri)
+        src = Source("fmt:" + kind, uri, "", back, b"", None)
+        sources.append(src)
+        ctx.event("fmt_source:" + kind)
+        ctx.event("fmt_source_records", len(back))
+    entries = []
+    for s in sources:
+        for r in s.records:
+            observe.assert_typed(r, "source read without selector")
+            entries.append(M.Entry(observe.normalise(observe.obs(r)), r, {k: getattr(r, k) for k in r.__slots__}))
+    descs = []
+    for e in entries:
+        if not any(e.rec._desc is x for x in descs):
+            descs.append(e.rec._desc)
+    opts, argv_opts = make_options(rng, "C", sources, descs, len(entries), allow_unicode=False)
+    if rng.random() < 0.6 and entries and not opts.get("selector"):
+        opts["selector"] = simple_selector(rng, descs, [e.rec for e in entries])
+        argv_opts += ["-s", opts["selector"]] + (["-n"] if rng.random() < 0.5 else [])
+    opts.pop("multi_timestamp", None)
+    argv_opts = [a for a in argv_opts if a != "--multi-timestamp"]
+    keep = None
+    if opts.get("selector"):
+        try:
+            kept, touched = M.reference_filter(opts["selector"], entries)
+        except M.CaseUndefined:
+            ctx.event("skipped:selector_undefined")
+            return
+        if touched and M.risky_with_missing(opts["selector"]):
+            ctx.event("skipped:missing_field_with_c08_operator")
+            return
+        ctx.event("selector_defined")
+        entries = kept
+    candidates = [M.apply_options(entries, opts)]
+    detail = {"argv": None, "sources": [(s.kind, len(s.records)) for s in sources], "options": opts, "family": "fmt", "drop_generated": True}
+    argv_src = [s.path for s in sources]
+    _run_inproc(ctx, case, rng, d, "B", sources, argv_src, argv_opts, opts, candidates, detail, force=rng.choice(["stream", "stream", "jsonfile"]))
+    _run_sub(ctx, case, rng, d, sources, argv_src, argv_opts, opts, candidates, dict(detail), False, rng.choice(["jsonlines", "json", "stream-stdout", "list"]))
+    ctx.event("fmt_cases")
+
+
+# ---- a field NAME with different types across record types; and/or/not selectors; both engines -----------------------------
+def hetero_family(rng):
+    from flow.record import RecordDescriptor
+
+    tag = "%x" % rng.randrange(16**6)
+    h1 = RecordDescriptor("het/a" + tag, [("varint", "size"), ("string", "tag"), ("string", "s")])
+    h2 = RecordDescriptor("het/b" + tag, [("string", "size"), ("string", "tag"), ("varint", "v")])
+    h3 = RecordDescriptor("het/c" + tag, [("float", "size"), ("string", "tag")])
+
+    def draw(n):
+        out = []
+        for _ in range(n):
+            k = rng.choice([0, 0, 0, 1, 2])
+            t = rng.choice(["keep", "drop", "x", ""])
+            if k == 0:
+                out.append(h1(size=rng.choice([0, 1, 2, 3, 5, 10, 100]), tag=t, s=rng.choice(["a", "b"])))
+            elif k == 1:
+                out.append(h2(size=rng.choice(["big", "3", "", "10"]), tag=t, v=rng.choice([1, 2, 3])))
+            else:
+                out.append(h3(size=rng.choice([0.5, 2.0, 3.5, 100.0]), tag=t))
+        return out
+
+    return draw
+
+
+def hetero_selector(rng):
+    k = rng.choice([0, 1, 2, 3, 5])
+    k2 = rng.choice([2, 10])
+    return rng.choice([
+        "r.size > %d or r.tag == 'keep'" % k,
+        "r.tag == 'keep' or r.size > %d" % k,
+        "r.size > %d and r.tag == 'keep'" % k,
+        "r.tag == 'keep' and r.size > %d" % k,
+        "not (r.size > %d) and r.tag != 'x'" % k,
+        "not (r.size > %d or r.tag == 'drop')" % k,
+        "r.size == %d or r.size > %d" % (k, k2),
+        "(r.size > %d or r.tag == 'keep') and r.tag != ''" % k,
+        "r.size + 1 > %d or r.tag == 'keep'" % k,
+        "r.size >= %d" % k,
+        "r.tag == 'keep' or (r.size < %d and r.size > 0)" % k2,
+        "r.size * 2 > %d and not r.tag == 'drop'" % k,
+    ])
+
+
+def python_filter(expr, records):
+    """Reference for plain-Python selectors over fields every record has (no None values): Python's own evaluation,
+    short-circuit included; a record on which the expression raises ends its source (the reader's iteration dies and
+    rdump moves on to the next source).  -> (kept records, aborted?)"""
+    code = compile(expr, "<selector>", "eval")
+    kept = []
+    for r in records:
+        try:
+            if eval(code, {"__builtins__": {}}, {"r": r}):  # noqa: S307 - expression from the fixed template list above
+                kept.append(r)
+        except Exception:  # noqa: BLE001
+            return kept, True
+    return kept, False
+
+
+def _execute_hetero(ctx, case, d):
+    rng = random.Random(case["s"])
+    draw = hetero_family(rng)
+    sources = [make_source(rng, "good", i, draw, d) for i in range(rng.choice([1, 2, 3]))]
+    expr = hetero_selector(rng)
+    entries = []
+    aborted = 0
+    for s in sources:
+        es = source_entries(ctx, s)
+        if es is None:
+            ctx.event("skipped:input_outside_class")
+            return
+        kept, ab = python_filter(expr, [e.rec for e in es])
+        aborted += ab
+        keep = set(id(r) for r in kept)
+        entries += [e for e in es if id(e.rec) in keep]
+    opts = {"selector": expr}
+    argv_opts = ["-s", expr]
+    if rng.random() < 0.4:
+        opts["skip"] = rng.choice([1, 2])
+        argv_opts += ["--skip", str(opts["skip"])]
+    if rng.random() < 0.4:
+        opts["count"] = rng.choice([1, 2, 4])
+        argv_opts += ["-c", str(opts["count"])]
+    candidates = [M.apply_options(entries, opts)]
+    argv_src = [s.path for s in sources]
+    counts = []
+    for engine in ("compiled", "interpreted"):
+        o = dict(opts)
+        a = list(argv_opts)
+        if engine == "interpreted":
+            o["no_compile"] = True
+            a += ["-n"]
+        detail = {"argv": None, "sources": [(s.kind, s.comp, len(s.records), s.cut) for s in sources], "options": o, "family": "H",
+                  "sources_aborted_by_reference": aborted}
+        counts.append(_run_inproc(ctx, case, rng, d, "A", sources, argv_src, a, o, candidates, detail, force="stream"))
+    ctx.event("hetero_cases")
+    if aborted:
+        ctx.event("hetero_cases_with_aborted_source")
+    if counts[0] is not None and counts[0] == counts[1]:
+        ctx.event("hetero_engines_agree")
+
+
+# ---- environment children --------------------------------------------------------------------------------------------------
+ENVX_CONFIGS = [
+    {"FLOW_RECORD_IGNORE": "_generated"},
+    {"FLOW_RECORD_IGNORE": "_source"},
+    {"FLOW_RECORD_IGNORE": "s"},
+    {"FLOW_RECORD_IGNORE": "_generated,v,_classification"},
+    {"FLOW_RECORD_TZ": "Europe/Amsterdam"},
+    {"FLOW_RECORD_TZ": "America/St_Johns"},
+    {"PYTHONHASHSEED": "1"},
+    {"PYTHONHASHSEED": "random"},
+    {"PYTHONOPTIMIZE": "1"},
+    {"PYTHONOPTIMIZE": "2"},
+    {"PYTHONIOENCODING": "ascii:backslashreplace"},
+    {"LC_ALL": "C", "LANG": "C"},
+]
+
+
+def _execute_envx(ctx, case, d):
+    """rdump in a child with one environment variable set: every output must be what the reference pipeline says (which is
+    what the run without the variable gives), except that FLOW_RECORD_TZ may change the rendered text of timestamps
+    (display only): for it the record-level outputs are compared."""
+    rng = random.Random(case["s"])
+    extra = ENVX_CONFIGS[case["config"]]
+    draw, descs = tame_family(rng)
+    sources = [make_source(rng, "good", i, draw, d) for i in range(2)]
+    per = [source_entries(ctx, s) for s in sources]
+    if any(e is None for e in per):
+        ctx.event("skipped:input_outside_class")
+        return
+    entries = [e for es in per for e in es]
+    label = ",".join("%s=%s" % kv for kv in sorted(extra.items()))
+    modes = ["stream-stdout", "jsonlines", "json"] + ([] if "FLOW_RECORD_TZ" in extra else ["csv", "line", "text"])
+    for mi, mode in enumerate(["stream-stdout"] + modes):
+        r2 = random.Random(subseed(case["s"], mode, mi))
+        if mi == 0:
+            opts, argv_opts = {}, []
+        else:
+            opts, argv_opts = make_options(r2, "C", sources, descs, len(entries), allow_unicode=False)
+        ents = entries
+        if opts.get("selector"):
+            try:
+                ents, touched = M.reference_filter(opts["selector"], entries)
+            except M.CaseUndefined:
+                ctx.event("skipped:selector_undefined")
+                continue
+            if touched and M.risky_with_missing(opts["selector"]):
+                ctx.event("skipped:missing_field_with_c08_operator")
+                continue
+        candidates = [M.apply_options(ents, opts)]
+        detail = {"argv": None, "sources": [(s.kind, s.comp, len(s.records), s.cut) for s in sources], "options": opts, "family": "C", "environment": extra}
+        _run_sub(ctx, case, r2, d, sources, [s.path for s in sources], argv_opts, opts, candidates, detail, False, mode, extra_env=extra)
+        ctx.event("envx_runs")
+        ctx.cell("environment", label, mode)
+
+
 def _execute(ctx, case, d):
+    if case["k"] == "fmt":
+        return _execute_fmt(ctx, case, d)
+    if case["k"] == "hetero":
+        return _execute_hetero(ctx, case, d)
+    if case["k"] == "envx":
+        return _execute_envx(ctx, case, d)
     rng = random.Random(case["s"])
     fam = case["fam"]
     kind = case["k"]
@@ -1072,7 +1390,7 @@ def compare_json_mode(c, so, final, mode, what, detail):
     return ok
 
 
-def _run_sub(ctx, case, rng, d, sources, argv_src, argv_opts, opts, candidates, detail, use_stdin, mode):
+def _run_sub(ctx, case, rng, d, sources, argv_src, argv_opts, opts, candidates, detail, use_stdin, mode, extra_env=None):
     stdin_data = None
     if use_stdin:
         s = sources[0]
@@ -1089,12 +1407,12 @@ def _run_sub(ctx, case, rng, d, sources, argv_src, argv_opts, opts, candidates, 
     detail["stdin"] = None if stdin_data is None else len(stdin_data)
     ctx.ev()
     try:
-        rc, so, se = run_subprocess(argv, stdin_data)
+        rc, so, se = run_subprocess(argv, stdin_data, extra_env)
     except subprocess.TimeoutExpired:
         ctx.event("subprocess_timeout")
         ctx.require(False, "an rdump subprocess exceeded its watchdog")
         return None
-    what = "subprocess %s%s" % (mode, " (stdin)" if use_stdin else "")
+    what = "subprocess %s%s%s" % (mode, " (stdin)" if use_stdin else "", " with %s" % ",".join("%s=%s" % kv for kv in sorted(extra_env.items())) if extra_env else "")
     if rc != 0:
         ctx.violation(None, "%s: rdump exited with %s although the reference pipeline is defined" % (what, rc), detail=dict(detail, stderr=se[-800:]))
         return None
@@ -1148,6 +1466,9 @@ def finish(ctx):
     ctx.require(ev.get("cases_compared", 0) > 0, "no case reached the comparison")
     ctx.require(ev.get("cases_with_output", 0) > 0, "no case had a non-empty expected output")
     ctx.require(sum(v for k, v in ev.items() if k.startswith("damaged_source:")) > 0, "no source damaged mid-stream was generated")
+    ctx.require(ev.get("fmt_cases", 0) > 0 and ev.get("fmt_source_records", 0) > 0, "no case with non-stream input forms was compared")
+    ctx.require(ev.get("hetero_engines_agree", 0) > 0 and ev.get("hetero_cases_with_aborted_source", 0) > 0,
+                "no heterogeneous-field case (with a source ended by a raising selector) was compared for both engines")
     ctx.require(ev.get("source_kind:neutral", 0) > 0 and ev.get("source_kind:concat", 0) > 0, "no neutral-name / concatenated source was generated")
     ctx.require(ev.get("mtx_cases", 0) == 0 or ev.get("mtx_all_modes_same_record_count", 0) > 0, "no --multi-timestamp x projection case was compared in every output mode")
     skipped = sum(v for k, v in ev.items() if k.startswith("skipped:"))
